@@ -5,7 +5,8 @@ PATCH="$1"; shift
 cd /verif
 git -C /repo diff --quiet || { echo "/repo has uncommitted changes"; exit 2; }
 git -C /repo apply "$(readlink -f "$PATCH")" || { echo "patch does not apply"; exit 2; }
-trap 'git -C /repo checkout -- . ' EXIT
+EVSAVE=$(mktemp -d); cp -a evidence/. $EVSAVE/   # evidence must describe the unchanged tree: put it back afterwards
+trap 'git -C /repo checkout -- . ; cp -a $EVSAVE/. evidence/; rm -rf $EVSAVE' EXIT
 for p in "$@"; do
   out=$(./check "$p" --tier "${TIER:-quick}" 2>&1); rc=$?
   echo "== $p exit=$rc"; echo "$out" | grep -E "^VIOLATION|^KNOWN|^INCONCLUSIVE|^  scenario" | head -8
